@@ -34,7 +34,8 @@ def run(ctx):
         evaluations=s.get("opens", 0) + s.get("asan.opens", 0),
         floors={"mut.seeds": 12, "mut.seeds.v1": 3, "mut.seeds.v2": 6, "opens": 30000, "outcome.trailer-index-offset.NULL": 1000, "outcome.index-length-varint.NULL": 500,
                 "outcome.index-length-fixed32.NULL": 200, "outcome.tiny-file.NULL": 5000, "outcome.intact-seed.reader": 40, "outcome.index-header-byte.assert-abort": 50,
+                "outcome.consistent-index-length.NULL": 1000, "outcome.consistent-index-offset.NULL": 1000, "outcome.multi-field.NULL": 2000,
                 "opens.verify1.end-aligned": 5000, "opens.verify0.start-aligned": 5000, "asan.opens": 5000},
         exhaustive=False,
         extra={"outcomes_by_mutation_class": outcomes,
-               "exhaustive_subspace": "per seed: the listed single-field mutation sets; all lengths 512..544 x 2 magics x value set x 3 fills"})
+               "exhaustive_subspace": "per seed: the listed single-field mutation sets and the consistent two-field forgeries (length prefix + bytes_index_block, index offset + bytes_index_block); all lengths 512..544 x 2 magics x value set x 3 fills"})
